@@ -1,7 +1,7 @@
 """C07 — the OpenAPI document tells the truth about requests and responses."""
 import re
 
-from .lib import (ITER_PLUMBING, PLUMBING, callee_allow, callers, closure_args_of_call, element_sources, lit_strs, operand_local)
+from .lib import (ITER_PLUMBING, PLUMBING, borrow_root, callee_allow, callers, closure_args_of_call, element_sources, lit_strs, operand_local)
 from .lib_c12 import (STATUS_PATH, TO_STRING, Origin, agg_field_op, coded_impls, const_bool_operand, const_val, direct_element_sources, eval_bool_paths, field_sources, from_impls, norm_ty, op_const_path,
                       only_plumbing, params_of_type, ret_ok_sites, self_of_call)
 
@@ -446,7 +446,13 @@ def r3_content_type(ctx):
         ctx.lost(R, "the gen_openapi closure that builds openapiv3::RequestBody")
     else:
         g = rbs[0]
-        ins = [(bb, t) for bb, t in g.live_calls(r"IndexMap::<K, V, S>::insert$") if any(a[0] == "agg" and a[1] == "openapiv3::MediaType" for a in g.slice(t["args"][2]).atoms)]
+        # the media-type map that becomes RequestBody.content (other MediaType maps of the same function belong to the responses)
+        content_locals = set()
+        for b_, i_, st_ in g.aggregates(r"^openapiv3::RequestBody$"):
+            cop = agg_field_op(st_, "content")
+            content_locals |= g.slice(cop).locals() if cop else set()
+        ins = [(bb, t) for bb, t in g.live_calls(r"IndexMap::<K, V, S>::insert$") if any(a[0] == "agg" and a[1] == "openapiv3::MediaType" for a in g.slice(t["args"][2]).atoms)
+               and borrow_root(g, t["args"][0]) in content_locals]
         ok = False
         for bb, t in ins:
             ks = g.slice(t["args"][1], stop_at_calls=r"iter::Iterator::next$")
@@ -882,9 +888,11 @@ def r7_framework_errors_use_endpoint_error_type(ctx):
         via_endpoint_type = False
         for g in fns:
             for bb, t in g.live_calls(r"convert::From::from$|ops::FromResidual::from_residual$|convert::Into::into$"):
-                ga = t.get("gargs", [])
+                ga = list(t.get("gargs", []))
                 if len(ga) < 2:
                     continue
+                if (t.get("callee") or "").endswith("convert::Into::into"):
+                    ga[0], ga[1] = ga[1], ga[0]      # <Source as Into<Target>>::into: same conversion as <Target as From<Source>>::from
                 into_handler_error = ga[0] == "handler::HandlerError" or ga[0].endswith(", handler::HandlerError>")
                 if into_handler_error:
                     n_conv += 1
@@ -897,6 +905,11 @@ def r7_framework_errors_use_endpoint_error_type(ctx):
                               "HandlerError built from `%s` (%s)" % (src, "the endpoint's error type" if ok else "NOT the endpoint's declared error type: the response body would not match the documented error schema of a custom error type"), (g, bb))
                 if len(ga) >= 2 and generic_err.search(ga[0]) and ga[1] == "error::HttpError":
                     via_endpoint_type = True
+        # a HandlerError written out as an enum literal bypasses the conversion (and with it the endpoint's error type) altogether
+        direct = [(g, b) for g in fns for b, i, st in g.aggregates(r"^handler::HandlerError$") if b in g.reachable(0)]
+        for g, b in direct:
+            ctx.check(R, "conversion-source:%s" % root.id.split(" as ")[-1].replace(">::handle_request", ""), False,
+                      "HandlerError built as an enum literal on the endpoint path instead of being converted from the endpoint's error type", (g, b))
         if "HttpHandlerFunc" in root.id:
             sl_ok = False
             for g in fns:
